@@ -1458,8 +1458,16 @@ func c14DecodeForms(c *Ctx, w *World) {
 			if b, isB := f.Type().Underlying().(*types.Basic); !isB || b.Info()&types.IsInteger == 0 {
 				continue
 			}
-			// the comparison's result becomes a boolean field of the receiver
+			// the comparison's result becomes a boolean field of the receiver: the receiver has a bool field of
+			// the carrier's name (the decoded form mirrors the type), or the result is stored into a bool field
 			becomesFlag := false
+			if rst, isSt := deref(fn.Signature.Recv().Type()).Underlying().(*types.Struct); isSt {
+				for fi := 0; fi < rst.NumFields(); fi++ {
+					if rst.Field(fi).Name() == f.Name() && isBoolType(rst.Field(fi).Type()) {
+						becomesFlag = true
+					}
+				}
+			}
 			for _, r := range *bo.Referrers() {
 				if st, isSt := r.(*ssa.Store); isSt {
 					if fa, isFA := st.Addr.(*ssa.FieldAddr); isFA {
@@ -1492,6 +1500,22 @@ func c14DecodeForms(c *Ctx, w *World) {
 			c.sites++
 			c.sawFunc(fname(fn))
 			checked := false
+			// a switch over the carrier with a case for 0, a case for 1 and a default is a range check too
+			eqConsts := map[int64]bool{}
+			for _, in2 := range allInstrs(fn) {
+				if b2, ok := in2.(*ssa.BinOp); ok && b2.Op == token.EQL {
+					for _, pair := range [][2]ssa.Value{{b2.X, b2.Y}, {b2.Y, b2.X}} {
+						if f2, _ := loadedField(stripConvNoBind(pair[0])); f2 == f {
+							if k2, isK := constInt(pair[1]); isK {
+								eqConsts[k2] = true
+							}
+						}
+					}
+				}
+			}
+			if eqConsts[0] && eqConsts[1] {
+				checked = true
+			}
 			for _, in2 := range allInstrs(fn) {
 				b2, ok := in2.(*ssa.BinOp)
 				if !ok || !(b2.Op == token.GTR || b2.Op == token.GEQ || b2.Op == token.LSS || b2.Op == token.LEQ) {
@@ -1531,7 +1555,13 @@ func c14DecodeForms(c *Ctx, w *World) {
 			c.sites++
 			c.sawFunc(fname(fn))
 			prepared := false
-			for _, in2 := range allInstrs(fn) {
+			scopeInstrs := allInstrs(fn)
+			for _, ci := range callInstrs(fn) {
+				if g := ci.Common().StaticCallee(); g != nil && g.Pkg == fn.Pkg && g.Blocks != nil && g != fn && instrDominates(ci.(ssa.Instruction), mu) {
+					scopeInstrs = append(scopeInstrs, allInstrs(g)...) // a helper that prepares the receiver, called before the write
+				}
+			}
+			for _, in2 := range scopeInstrs {
 				switch x := in2.(type) {
 				case *ssa.Store:
 					if fa, isFA := x.Addr.(*ssa.FieldAddr); isFA && fieldOfAddr(fa) == f {
